@@ -165,7 +165,13 @@ class load(DataStreamProcessor):
                 for resource in self.load_dp.resources:
                     if resource_matcher.match(resource.name):
                         self.resource_descriptors.append(resource.descriptor)
-                        self.iterators.append(resource.iter(keyed=True, cast=True))
+                        if resource.descriptor.get('format') == 'json':
+                            # JSON rows are objects: their keys reach us sorted, not in schema
+                            # order, so cast them by field name rather than by position
+                            self.iterators.append(schema_validator(
+                                resource.descriptor, resource.iter(keyed=True, cast=False)))
+                        else:
+                            self.iterators.append(resource.iter(keyed=True, cast=True))
 
             # Loading for any other source
             else:
